@@ -295,7 +295,9 @@ def gen_to_kurbo(src):
     m = need(re.match(r"for (\w+) in points ", rest), "segment loop")
     pv = m.group(1)
     loop, after = block_after(rest, m.end() - 1)
-    if rest[after:].strip() != "Ok(path)":
+    # a `close_path` call after the loop is counted (emitsClose), not an unknown shape
+    tail_after = re.sub(r"(if self\.is_closed\(\) \{ )?path\.close_path\(\); ?(\} ?)?", "", rest[after:]).strip()
+    if tail_after != "Ok(path)":
         raise Anchor("to_kurbo must end in Ok(path)")
     m = need(re.match(r"let (\w+) = %s\.to_kurbo\(\); match %s\.typ " % (pv, pv), loop), "loop head")
     kp = m.group(1)
